@@ -28,8 +28,8 @@ var c15Addrs = []c15Addr{
 	{"alice@example.org", cAlice},
 	{"ALICE@EXAMPLE.ORG", cAlice},
 	{"sales@example.org", cSales},
-	{"other@example.org", cOther},
-	{"mallory@evil.example.net", cEvil},
+	{"malice@example.org", cOther},       // third address of the domain; has the entitled address as a string suffix
+	{"mallory@notexample.org", cEvil}, // foreign domain that has the entitled domain as a string suffix
 	{"Alice@Example.Org", cAlice},
 	{"Sales@EXAMPLE.org", cSales},
 }
